@@ -245,7 +245,14 @@ func generate(rng *rand.Rand) Case {
 					op.Tags = gen.Pick(rng, "next,beta", "next,beta", "Latest", "LATEST,next", "current,lts", "not-latest")
 				}
 			}
-			for i := rng.Intn(4); i > 0; i-- {
+			nreq := rng.Intn(4)
+			if rng.Intn(15) == 0 {
+				// Many requirements, several of them going by the same name (one
+				// name in two sections, an alias and its plain namesake): their
+				// order among themselves is the order of the addition.
+				nreq = 13 + rng.Intn(10)
+			}
+			for i := nreq; i > 0; i-- {
 				q := Req{Name: depNames[rng.Intn(len(depNames))], Req: gen.Pick(rng, "*", "^1.0.0", ">=1", "1.0", "[1.0,)")}
 				if sysName == "NPM" {
 					q.Dev = rng.Intn(4) == 0
